@@ -199,6 +199,10 @@ Inductive op :=
 | OCrash (k : nat) (t : N)         (* the process dies while the file is being written: the file keeps
                                       the first k bytes of its content; a new process = a new loader *)
 | OExt (c : bytes) (t : N)         (* something else writes the file while no loader is alive *)
+| OTear (k : nat) (t : N)          (* ANOTHER writer leaves the file cut to its first k bytes, modification time t;
+                                      this loader lives on with whatever it has cached *)
+| OForeign (s : session) (t : N)   (* another process / another loader on the same path stores s (complete file,
+                                      modification time t); this loader's cache is kept *)
 | OClient (host : bytes)           (* NewMTProto(Config{AuthKeyFile: path, ServerHost: host}) : observe *)
 | OClientSave (host : bytes) (t : N). (* the same, then m.SaveSession(); afterwards a new loader *)
 
@@ -316,6 +320,10 @@ Section Codec.
     | OFresh => (fs, fresh (l_path l), ObsNone)
     | OCrash k t => (crash fs (l_path l) k t, fresh (l_path l), ObsNone)
     | OExt c t => (fs_set fs (l_path l) (Some (c, t)), fresh (l_path l), ObsNone)
+    | OTear k t => (crash fs (l_path l) k t, l, ObsNone)
+    | OForeign s t =>
+      (* the other loader's Store: same directory test, whole-file write; our loader untouched *)
+      let '(_, fs', _) := store fs (fresh (l_path l)) s t in (fs', l, ObsNone)
     | OClient host => (fs, l, ObsClient (fst (new_mtproto fs (l_path l) host)))
     | OClientSave host t =>
       let '(r, lc) := new_mtproto fs (l_path l) host in
@@ -353,6 +361,9 @@ Section Codec.
     | OCrash k _ =>
       (match st with IAbsent => IAbsent | IFile s n => IFile s (Nat.min k n) end, ObsNone)
     | OExt _ _ => (st, ObsNone)       (* not part of the property: excluded by [proper] *)
+    | OTear k _ =>
+      (match st with IAbsent => IAbsent | IFile s n => IFile s (Nat.min k n) end, ObsNone)
+    | OForeign s _ => (IFile s (length (render s)), ObsNone)
     | OClient host => (st, ObsClient (client_decide host (ideal_load st)))
     | OClientSave host _ =>
       match client_decide host (ideal_load st) with
@@ -372,6 +383,7 @@ Section Codec.
   Definition proper (o : op) : bool :=
     match o with
     | OStore s _ => session_ok s
+    | OForeign s _ => session_ok s
     | OExt _ _ => false
     | OClient _ => true
     | OClientSave host _ => utf8_valid host
@@ -400,7 +412,7 @@ Fixpoint last_store_run (last : option session) (ops : list op) : list obs :=
 (* modification times handed out by the environment never go back (equal ticks allowed) *)
 Definition op_time (o : op) : option N :=
   match o with
-  | OStore _ t | OCrash _ t | OExt _ t | OClientSave _ t => Some t
+  | OStore _ t | OCrash _ t | OExt _ t | OClientSave _ t | OTear _ t | OForeign _ t => Some t
   | _ => None
   end.
 
@@ -412,4 +424,24 @@ Fixpoint times_nondecreasing (from : N) (ops : list op) : bool :=
     | Some t => (from <=? t) && times_nondecreasing t r
     | None => times_nondecreasing from r
     end
+  end.
+
+(* Changes made by another writer while this loader lives on.  The loader's cache is keyed on the
+   modification time alone, so such a change is visible to it exactly when it carries a time other
+   than the one the loader cached at.  [foreign_newer now ops]: every OTear / OForeign carries a
+   time strictly later than every time handed out before it in the history ([now] = latest so far);
+   the loader's own stores, crashes and restarts may reuse a tick. *)
+Definition foreign_op (o : op) : bool :=
+  match o with OTear _ _ | OForeign _ _ => true | _ => false end.
+
+Definition next_now (now : N) (o : op) : N :=
+  match op_time o with Some t => N.max now t | None => now end.
+
+Definition foreign_ok (now : N) (o : op) : bool :=
+  if foreign_op o then match op_time o with Some t => now <? t | None => true end else true.
+
+Fixpoint foreign_newer (now : N) (ops : list op) : bool :=
+  match ops with
+  | [] => true
+  | o :: r => foreign_ok now o && foreign_newer (next_now now o) r
   end.
